@@ -1,7 +1,7 @@
 """Sketch-level case builders. A Builder accumulates instruction lines and, per line, an optional
 expectation: a literal string, ("same", j) = must equal the implementation's answer to line j,
 or a callable(answer, ctx) -> error message or None (exact-rational oracles)."""
-import math
+import math, zlib
 from fractions import Fraction
 from .core import Case, f2h, h2f, parse_F, nextafter
 
@@ -34,6 +34,16 @@ class Builder:
     # ---- instructions with shadow bookkeeping
     def knew(self, k, spec, kp, kn, exact=False):
         self.vals[k] = []; self.spec[k] = spec; self.kinds[k] = (kp, kn, exact)
+        # one time in three, when the sketch is one the library has a convenience constructor for, build it through that constructor
+        if spec.startswith("log:a:") and kp == kn and (zlib.crc32(self.name.encode()) + len(self.lines)) % 3 == 0:
+            a = spec[6:]
+            if exact: form = "defaultx %s" % a if kp == "pag" and len(self.lines) % 2 else "provx %s %s" % (a, kp)
+            elif kp == "pag": form = "default %s" % a if len(self.lines) % 2 else "prov %s pag" % a
+            elif kp == "dense": form = "logdense %s" % a
+            elif kp.startswith("low:"): form = "loglow %s %s" % (a, kp[4:])
+            elif kp.startswith("high:"): form = "loghigh %s %s" % (a, kp[5:])
+            else: form = "prov %s %s" % (a, kp)
+            return self.emit("knewc %s %s" % (k, form), "ok")
         return self.emit("knew %s %s %s %s%s" % (k, spec, kp, kn, " exact" if exact else ""), "ok")
     def kadd(self, k, v, w=None, exp="ok"):
         if exp == "ok" and (w is None or w > 0): self.vals[k].append((v, Fraction(1) if w is None else Fraction(w)))
